@@ -39,7 +39,7 @@ pub struct Case {
 fn op() -> impl Strategy<Value = Op> {
     prop_oneof![
         20 => (0u8..4, prop::option::weighted(0.55, 0u8..4), prop::option::weighted(0.6, 0u8..IDENTS), prop::bool::weighted(0.15), prop::bool::weighted(0.25)).prop_map(|(slot, reuse_of, record, dead, idle)| Op::Open { slot, reuse_of, record, dead, idle }),
-        30 => (0u8..4, 0u8..IDENTS, prop::bool::weighted(0.12), prop::bool::weighted(0.3)).prop_map(|(slot, only, hang_up, other_host)| Op::Request { slot, only, hang_up, other_host }),
+        30 => (0u8..4, 0u8..IDENTS, prop::bool::weighted(0.2), prop::bool::weighted(0.5)).prop_map(|(slot, only, hang_up, other_host)| Op::Request { slot, only, hang_up, other_host }),
         10 => (0u8..4, 0u8..IDENTS).prop_map(|(slot, ident)| Op::Overwrite { slot, ident }),
         10 => (0u8..4).prop_map(|slot| Op::Close { slot }),
         5 => prop::collection::vec(0u8..IDENTS, 2..9).prop_map(|idents| Op::Batch { idents }),
@@ -51,7 +51,7 @@ pub fn strategy() -> impl Strategy<Value = Case> {
     prop::collection::vec(op(), 1..24).prop_map(|ops| Case { ops })
 }
 
-pub const RULE: &str = "generator: histories (1-23 ops) over 4 connection slots and 5 identities: Open{fresh port | the port last used by a slot (that connection is reset with SO_LINGER 0 first and the new socket binds the same port), a quarter of the opens stay idle (no request follows the connect: the record must be consumed at accept all the same, within 5 s), in 15% of the attributed opens the record names an unreachable destination so that the proxy's own connect to the host fails at accept time, with a record for identity k or without}, Request{slot, /only/<j>; 12%: the host closes its connection with the proxy right after answering; 30%: the Host header names another endpoint than the recorded one}, Overwrite{slot's port gets a new record while its connection is open}, Close, Batch{2-8 connections opened concurrently from threads, each with its own identity}, Flood{200-1199 idle connections are held open while one attributed connection is opened, used and closed}. Identities differ in uid (generated passwd), process (helper executables) and elevation; the IMDS rule set (enforce, default deny) grants /only/<k> to identity k only, so every decision identifies whose claims were used, and the forwarded claims header gives the elevation bit. oracle: no request ever arrives at a host other than the one the kernel recorded for its connection (after a host hang-up a 5xx without relay is accepted); model port -> pending record; at accept the record moves to the connection and leaves the map (trace shows lookup then remove; the stand-in map has no entry for the port afterwards); every request on a connection is decided with that connection's identity regardless of later overwrites; a connection from a reused port without a fresh record gets 421 on every request. non-trivial: history with a port reuse without a fresh record after an attributed connection, or >= 2 requests on one connection with an overwrite in between, or a batch >= 4; distinct by hash of the history.";
+pub const RULE: &str = "generator: histories (1-23 ops) over 4 connection slots and 5 identities: Open{fresh port | the port last used by a slot (that connection is reset with SO_LINGER 0 first and the new socket binds the same port), a quarter of the opens stay idle (no request follows the connect: the record must be consumed at accept all the same, within 5 s), in 15% of the attributed opens the record names an unreachable destination so that the proxy's own connect to the host fails at accept time, with a record for identity k or without}, Request{slot, /only/<j>; 20%: the host closes its connection with the proxy right after answering; 50%: the Host header names another endpoint than the recorded one}, Overwrite{slot's port gets a new record while its connection is open}, Close, Batch{2-8 connections opened concurrently from threads, each with its own identity}, Flood{200-1199 idle connections are held open while one attributed connection is opened, used and closed}. Identities differ in uid (generated passwd), process (helper executables) and elevation; the IMDS rule set (enforce, default deny) grants /only/<k> to identity k only, so every decision identifies whose claims were used, and the forwarded claims header gives the elevation bit. oracle: no request ever arrives at a host other than the one the kernel recorded for its connection (after a host hang-up a 5xx without relay is accepted); model port -> pending record; at accept the record moves to the connection and leaves the map (trace shows lookup then remove; the stand-in map has no entry for the port afterwards); every request on a connection is decided with that connection's identity regardless of later overwrites; a connection from a reused port without a fresh record gets 421 on every request. non-trivial: history with a port reuse without a fresh record after an attributed connection, or >= 2 requests on one connection with an overwrite in between, or a batch >= 4; distinct by hash of the history.";
 
 pub fn ident_rec(k: u8) -> Rec {
     Rec { uid_sel: k % IDENTS, helper_sel: k % IDENTS, is_root: k % IDENTS == 0, dest: DestSel::Imds }
@@ -276,6 +276,9 @@ pub fn eval(rig: &Rig, case: &Case, stats: &mut Stats) -> Outcome {
                 if closed {
                     stats.class("request:after-the-host-hung-up-on-this-connection");
                 }
+                // after a hang-up, a request that names another endpoint is one the caller is authorised for (otherwise it is
+                // refused before any relay is attempted and says nothing about where it would have gone)
+                let only = &(if closed && *other_host { identity.unwrap_or(*only) } else { *only });
                 if let Some(conn) = slots[s].conn.as_mut() {
                     let r = if dead { request_on_dead(rig, conn, *only) } else { request_on_opts(rig, conn, identity, *only, *hang_up, *other_host, closed) };
                     if *hang_up && !dead {
